@@ -50,14 +50,16 @@ func ZZH_C11_crash() {
 	bf := zz.NewBlockFile()
 	lg, err := New(nil, chainStore, stateStore, bf, nil, zz.Logger())
 	zz.Assert("C11.open-fresh", err == nil)
-	hs := []uint64{1, 2}
+	// heights around the first journal pruning (window 10: block 12 prunes journal 1)
+	hs := []uint64{1, 2, 12, 13}
 	if zz.Thorough() {
-		hs = []uint64{1, 2, 11, 12}
+		hs = []uint64{1, 2, 3, 10, 11, 12, 13, 14, 22, 23}
 	}
 	h := hs[zz.Choice("height", len(hs))]
 	parent := &types.Hash{}
 	for i := uint64(1); i < h; i++ {
-		bd := zzExecBlock(lg, i, parent)
+		// (earlier blocks are concrete: the crashed block carries the symbolic content)
+		bd := zzExecBlockWith(lg, i, parent, 0, uint8(i))
 		lg.PersistBlockData(bd)
 		parent = bd.Block.BlockHash
 	}
